@@ -377,7 +377,7 @@ pub fn run(ctx: &mut Ctx) {
     });
 
     // ---- random histories on 2..4 voice engines
-    let n = ctx.n(160, 3000);
+    let n = ctx.n(160, 20000);
     ctx.run_cases("weights-random", n, false, |ctx, rng, idx| {
         let nv = rng.range(2, 4);
         let (e, d) = if idx % 10 == 0 {
